@@ -93,11 +93,13 @@ Qed.
 (* the termination measure *)
 
 Definition unreaped (c : child) : bool := negb (is_reaped c).
-Definition workload (c : child) : nat := match cs c with Running w => S w | _ => 0 end.
+Definition fresh_alive (c : child) : bool := is_alive c && chg c.
+Definition workload (c : child) : nat :=
+  match cs c with Running p | Stopped p => S (script_cost p) | _ => 0 end.
 
 Definition kmeasure (k : kern) : nat :=
-  16 * count unreaped (kids k)
-  + 4 * (count is_running (kids k) + b2n (pending k) + b2n (0 <? caught k))
+  16 * count unreaped (kids k) + 16 * count fresh_alive (kids k)
+  + 4 * (count is_alive (kids k) + b2n (pending k) + b2n (0 <? caught k))
   + list_sum (map workload (kids k)).
 
 Definition stage_rank (k : kern) (m : wstage) : nat :=
@@ -108,7 +110,7 @@ Definition stage_rank (k : kern) (m : wstage) : nat :=
   | SBlocked => 1
   end.
 
-Definition fork_rank (todo : list (nat * N)) (pids : list nat) : nat :=
+Definition fork_rank (todo : list (list cact * N)) (pids : list nat) : nat :=
   list_sum (map spec_cost todo) + 8 * (length todo + length pids) + 12.
 
 Definition pc_rank (k : kern) (a : pc) : nat :=
@@ -133,7 +135,38 @@ Proof.
 Qed.
 
 (* ------------------------------------------------------------------------ *)
-(* what the kernel operations do *)
+(* what wait does *)
+
+Lemma kwait_report k t r k' :
+  kwait k t = (r, k') -> r <> WNone -> r <> WEchild ->
+  exists i c, nth_error (kids k) i = Some c /\ has_news_c c = true /\ report k i c = (r, k') /\
+              match t with
+              | TPid j => j = i
+              | TAny => forall j d, j < i -> nth_error (kids k) j = Some d -> has_news_c d = false
+              end.
+Proof.
+  unfold kwait. destruct t as [j|].
+  - destruct (nth_error (kids k) j) as [c|] eqn:E; [|intros H; inversion H; congruence].
+    destruct (has_news_c c) eqn:En.
+    + intros H _ _. exists j, c. auto.
+    + destruct (is_alive c); intros H; inversion H; congruence.
+  - destruct (find_from has_news_c (kids k) 0) as [[j c]|] eqn:E.
+    + intros H _ _. apply find_from_spec in E. rewrite Nat.sub_0_r in E.
+      destruct E as [_ [E1 [E2 E3]]]. exists j, c. auto.
+    + destruct (existsb is_alive (kids k)); intros H; inversion H; congruence.
+Qed.
+
+Lemma report_cases k i c r k' :
+  report k i c = (r, k') -> has_news_c c = true ->
+  (cs c = Zombie /\ r = WSome i (code c) /\ k' = set_kids k (upd (kids k) i (reap c))) \/
+  ((exists p, cs c = Stopped p) /\ chg c = true /\ r = WStop i /\ k' = set_kids k (upd (kids k) i (seen c))) \/
+  ((exists p, cs c = Running p) /\ chg c = true /\ r = WCont i /\ k' = set_kids k (upd (kids k) i (seen c))).
+Proof.
+  unfold report, has_news_c. destruct (cs c) eqn:Ec; intros H Hn; inversion H; subst; try discriminate.
+  - right. right. eauto 6.
+  - right. left. eauto 6.
+  - left. auto.
+Qed.
 
 Lemma kwait_some k t i st k' :
   kwait k t = (WSome i st, k') ->
@@ -141,37 +174,52 @@ Lemma kwait_some k t i st k' :
             k' = set_kids k (upd (kids k) i (reap c)) /\
             match t with
             | TPid j => j = i
-            | TAny => forall j d, j < i -> nth_error (kids k) j = Some d -> is_zombie d = false
+            | TAny => forall j d, j < i -> nth_error (kids k) j = Some d -> has_news_c d = false
             end.
 Proof.
-  unfold kwait. destruct t as [j|].
-  - destruct (nth_error (kids k) j) as [c|] eqn:E; [|discriminate].
-    destruct (cs c) eqn:Ec; try discriminate.
-    intros H; inversion H; subst. exists c. auto.
-  - destruct (find_from is_zombie (kids k) 0) as [[j c]|] eqn:E.
-    + intros H; inversion H; subst.
-      apply find_from_spec in E. rewrite Nat.sub_0_r in E. destruct E as [_ [E1 [E2 E3]]].
-      exists c. repeat split; auto.
-      unfold is_zombie in E2. destruct (cs c); try discriminate; reflexivity.
-    + destruct (existsb is_running (kids k)); discriminate.
+  intros H. destruct (kwait_report _ _ _ _ H) as [j [c [Hn [Hnews [Hr Ht]]]]]; try discriminate.
+  destruct (report_cases _ _ _ _ _ Hr Hnews) as [[Hc [E1 E2]]|[[_ [_ [E1 _]]]|[_ [_ [E1 _]]]]]; try discriminate.
+  inversion E1; subst. exists c. auto.
+Qed.
+
+(* wait reports a stop or a continuation of child i *)
+Lemma kwait_seen k t r k' i :
+  kwait k t = (r, k') -> (r = WStop i \/ r = WCont i) ->
+  exists c, nth_error (kids k) i = Some c /\ is_alive c = true /\ chg c = true /\
+            k' = set_kids k (upd (kids k) i (seen c)) /\
+            (r = WStop i -> exists p, cs c = Stopped p) /\
+            (r = WCont i -> exists p, cs c = Running p) /\
+            match t with TPid j => j = i | TAny => True end.
+Proof.
+  intros H Hr.
+  destruct (kwait_report _ _ _ _ H) as [j [c [Hn [Hnews [Hrep Ht]]]]];
+    try (destruct Hr; subst; discriminate).
+  destruct (report_cases _ _ _ _ _ Hrep Hnews) as [[Hc [E1 E2]]|[[[p Hc] [Hg [E1 E2]]]|[[p Hc] [Hg [E1 E2]]]]];
+    subst r; destruct Hr as [Hr|Hr]; try discriminate; inversion Hr; subst j;
+    exists c; unfold is_alive; rewrite Hc;
+    (repeat split; auto; try (intros; eauto; fail); try (intros E; discriminate E));
+    destruct t; auto.
 Qed.
 
 Lemma kwait_none k t k' :
   kwait k t = (WNone, k') ->
   k' = k /\
   match t with
-  | TPid j => exists c w, nth_error (kids k) j = Some c /\ cs c = Running w
-  | TAny => (forall c, In c (kids k) -> is_zombie c = false) /\ existsb is_running (kids k) = true
+  | TPid j => exists c, nth_error (kids k) j = Some c /\ is_alive c = true /\ has_news_c c = false
+  | TAny => (forall c, In c (kids k) -> has_news_c c = false) /\ existsb is_alive (kids k) = true
   end.
 Proof.
   unfold kwait. destruct t as [j|].
   - destruct (nth_error (kids k) j) as [c|] eqn:E; [|discriminate].
-    destruct (cs c) eqn:Ec; try discriminate.
-    intros H; injection H as Hk; subst k'; split; [reflexivity|]. exists c, w. auto.
-  - destruct (find_from is_zombie (kids k) 0) as [[j c]|] eqn:E; [discriminate|].
-    destruct (existsb is_running (kids k)) eqn:Er; [|discriminate].
-    intros H; injection H as Hk; subst k'; split; [reflexivity|]. split; [|reflexivity].
-    eapply find_from_none; eauto.
+    destruct (has_news_c c) eqn:En.
+    + unfold report. destruct (cs c); discriminate.
+    + destruct (is_alive c) eqn:Ea; [|discriminate].
+      intros H; injection H as Hk; subst k'; split; [reflexivity|]. exists c. auto.
+  - destruct (find_from has_news_c (kids k) 0) as [[j c]|] eqn:E.
+    + unfold report. destruct (cs c); discriminate.
+    + destruct (existsb is_alive (kids k)) eqn:Er; [|discriminate].
+      intros H; injection H as Hk; subst k'; split; [reflexivity|]. split; [|reflexivity].
+      eapply find_from_none; eauto.
 Qed.
 
 Lemma kwait_echild k t k' :
@@ -184,88 +232,119 @@ Lemma kwait_echild k t k' :
 Proof.
   unfold kwait. destruct t as [j|].
   - destruct (nth_error (kids k) j) as [c|] eqn:E.
-    + destruct (cs c) eqn:Ec; try discriminate.
-      intros H; injection H as Hk; subst k'; split; [reflexivity|]. right. exists c; auto.
+    + destruct (has_news_c c) eqn:En.
+      * unfold report. unfold has_news_c in En. destruct (cs c) eqn:Ec; try discriminate.
+      * destruct (is_alive c) eqn:Ea; [discriminate|].
+        intros H; injection H as Hk; subst k'; split; [reflexivity|]. right. exists c. split; [reflexivity|].
+        unfold has_news_c, is_alive in *. destruct (cs c); try discriminate; reflexivity.
     + intros H; injection H as Hk; subst k'. auto.
-  - destruct (find_from is_zombie (kids k) 0) as [[j c]|] eqn:E; [discriminate|].
-    destruct (existsb is_running (kids k)) eqn:Er; [discriminate|].
-    intros H; injection H as Hk; subst k'; split; [reflexivity|].
-    intros c Hc. pose proof (find_from_none _ _ _ E c Hc) as Hz.
-    assert (Hr : is_running c = false).
-    { destruct (is_running c) eqn:Hr; [|reflexivity].
-      assert (existsb is_running (kids k) = true) by (apply existsb_exists; exists c; auto).
-      congruence. }
-    unfold is_zombie, is_running in *. destruct (cs c); try discriminate; reflexivity.
+  - destruct (find_from has_news_c (kids k) 0) as [[j c]|] eqn:E.
+    + unfold report. apply find_from_spec in E. destruct E as [_ [_ [E _]]]. unfold has_news_c in E.
+      destruct (cs c); try discriminate.
+    + destruct (existsb is_alive (kids k)) eqn:Er; [discriminate|].
+      intros H; injection H as Hk; subst k'; split; [reflexivity|].
+      intros c Hc. pose proof (find_from_none _ _ _ E c Hc) as Hz.
+      assert (Hr : is_alive c = false).
+      { destruct (is_alive c) eqn:Hr; [|reflexivity].
+        assert (existsb is_alive (kids k) = true) by (apply existsb_exists; exists c; auto).
+        congruence. }
+      unfold has_news_c, is_alive in *. destruct (cs c); try discriminate; reflexivity.
 Qed.
 
-(* how replacing child i changes the three sums of kmeasure *)
+(* how replacing child i changes the four sums of kmeasure *)
 Lemma sums_upd k i c c' :
   nth_error (kids k) i = Some c ->
   count unreaped (upd (kids k) i c') + b2n (unreaped c) = count unreaped (kids k) + b2n (unreaped c') /\
-  count is_running (upd (kids k) i c') + b2n (is_running c) = count is_running (kids k) + b2n (is_running c') /\
+  count fresh_alive (upd (kids k) i c') + b2n (fresh_alive c) = count fresh_alive (kids k) + b2n (fresh_alive c') /\
+  count is_alive (upd (kids k) i c') + b2n (is_alive c) = count is_alive (kids k) + b2n (is_alive c') /\
   list_sum (map workload (upd (kids k) i c')) + workload c = list_sum (map workload (kids k)) + workload c'.
 Proof.
-  intros Hn. repeat split; [apply count_upd | apply count_upd | apply sum_upd]; assumption.
+  intros Hn. repeat split; [apply count_upd | apply count_upd | apply count_upd | apply sum_upd]; assumption.
 Qed.
 
-Ltac child_facts c Hc :=
-  let E1 := fresh "E" in let E2 := fresh "E" in let E3 := fresh "E" in
-  assert (E1 : unreaped c = negb match cs c with Reaped => true | _ => false end) by reflexivity;
-  assert (E2 : is_running c = match cs c with Running _ => true | _ => false end) by reflexivity;
-  assert (E3 : workload c = match cs c with Running w => S w | _ => 0 end) by reflexivity;
-  rewrite Hc in E1, E2, E3; cbn [negb] in E1.
+(* the measure of a kernel whose child i has been replaced *)
+Lemma kmeasure_upd k i c c' :
+  nth_error (kids k) i = Some c ->
+  kmeasure (set_kids k (upd (kids k) i c'))
+  + 16 * b2n (unreaped c) + 16 * b2n (fresh_alive c) + 4 * b2n (is_alive c) + workload c
+  = kmeasure k
+  + 16 * b2n (unreaped c') + 16 * b2n (fresh_alive c') + 4 * b2n (is_alive c') + workload c'.
+Proof.
+  intros Hn. destruct (sums_upd k i c c' Hn) as [H1 [H2 [H3 H4]]].
+  unfold kmeasure, set_kids; cbn [kids pending caught]. lia.
+Qed.
+
+Lemma kids_raise k : kids (raise_chld k) = kids k.
+Proof. unfold raise_chld, deliver. destruct (blocked k); [reflexivity|]. destruct (catching k); reflexivity. Qed.
+
+Lemma raise_measure k : kmeasure (raise_chld k) <= kmeasure k + 4.
+Proof.
+  unfold raise_chld, deliver, kmeasure.
+  destruct (blocked k); [|destruct (catching k)]; cbn [kids pending caught];
+    destruct (pending k); cbn [b2n];
+    destruct (Nat.ltb_spec 0 (caught k)); try destruct (Nat.ltb_spec 0 (S (caught k))); cbn [b2n]; lia.
+Qed.
+
+Ltac child_sums H :=
+  unfold unreaped, fresh_alive, is_alive, is_reaped, workload, script_cost in H;
+  cbn [cs chg code reaps reap seen negb andb b2n map act_cost] in H;
+  unfold list_sum in H; cbn [fold_right] in H.
 
 Lemma kmeasure_reap k i c :
   nth_error (kids k) i = Some c -> cs c = Zombie ->
   kmeasure (set_kids k (upd (kids k) i (reap c))) + 16 = kmeasure k.
 Proof.
-  intros Hn Hc. unfold kmeasure, set_kids; cbn [kids pending caught].
-  destruct (sums_upd k i c (reap c) Hn) as [H1 [H2 H3]].
-  child_facts c Hc.
-  change (unreaped (reap c)) with false in H1.
-  change (is_running (reap c)) with false in H2.
-  change (workload (reap c)) with 0 in H3.
-  rewrite E in H1. rewrite E0 in H2. rewrite E1 in H3. cbn [b2n] in *. lia.
+  intros Hn Hc. pose proof (kmeasure_upd k i c (reap c) Hn) as H.
+  destruct c as [s0 cd rp cg]. cbn [cs] in Hc. subst s0. child_sums H. cbn [reap code reaps]. lia.
 Qed.
 
-Lemma kmeasure_fork k w st :
-  kmeasure (fst (k_fork k w st)) = kmeasure k + 21 + w.
+Lemma kmeasure_seen k i c :
+  nth_error (kids k) i = Some c -> is_alive c = true -> chg c = true ->
+  kmeasure (set_kids k (upd (kids k) i (seen c))) + 16 = kmeasure k.
+Proof.
+  intros Hn Ha Hg. pose proof (kmeasure_upd k i c (seen c) Hn) as H.
+  destruct c as [s0 cd rp cg]. cbn [chg] in Hg. subst cg. unfold is_alive in Ha. cbn [cs] in Ha.
+  cbn [seen cs code reaps].
+  destruct s0; try discriminate; child_sums H; lia.
+Qed.
+
+Lemma kmeasure_fork k p st :
+  kmeasure (fst (k_fork k p st)) = kmeasure k + 21 + script_cost p.
 Proof.
   unfold k_fork, kmeasure, set_kids; cbn [fst kids pending caught].
   rewrite !count_app, map_app, list_sum_app. unfold count. cbn. lia.
 Qed.
 
-Lemma kmeasure_sig k l :
-  kmeasure (mkKern l (catching k) (blocked k) (pending k) (caught k)) =
-  kmeasure (set_kids k l).
-Proof. reflexivity. Qed.
+Lemma signal_measure k s t : kmeasure (k_signal k s t) <= kmeasure k + 20.
+Proof.
+  unfold k_signal. destruct (nth_error (kids k) t) as [c|] eqn:Hn; [|lia].
+  destruct c as [s0 cd rp cg]. cbn [cs code reaps].
+  destruct s; destruct s0; try lia.
+  - pose proof (raise_measure (set_kids k (upd (kids k) t (mkChild (Stopped p) cd rp true)))).
+    pose proof (kmeasure_upd k t _ (mkChild (Stopped p) cd rp true) Hn) as H1.
+    child_sums H1. destruct cg; cbn [b2n andb] in H1; lia.
+  - pose proof (raise_measure (set_kids k (upd (kids k) t (mkChild (Running p) cd rp true)))).
+    pose proof (kmeasure_upd k t _ (mkChild (Running p) cd rp true) Hn) as H1.
+    child_sums H1. destruct cg; cbn [b2n andb] in H1; lia.
+Qed.
 
 Lemma child_step_measure k i k' :
   child_step k i = Some k' -> kmeasure k' < kmeasure k.
 Proof.
   unfold child_step. destruct (nth_error (kids k) i) as [c|] eqn:Hn; [|discriminate].
-  destruct (cs c) as [[|w]| |] eqn:Hc; try discriminate; intros H; apply Some_inj in H; subst k'.
+  destruct c as [s0 cd rp cg]. cbn [cs code reaps chg].
+  destruct s0 as [[|[|s t] r]| | |]; try discriminate; intros H; apply Some_inj in H; subst k'.
   - (* exit *)
-    set (c' := mkChild Zombie (code c) (reaps c)).
-    destruct (sums_upd k i c c' Hn) as [H1 [H2 H3]].
-    child_facts c Hc.
-    change (unreaped c') with true in H1.
-    change (is_running c') with false in H2.
-    change (workload c') with 0 in H3.
-    rewrite E in H1. rewrite E0 in H2. rewrite E1 in H3. cbn [b2n] in *.
-    unfold raise_chld, deliver, set_kids; cbn [blocked catching kids pending caught].
-    destruct (blocked k); [|destruct (catching k)]; unfold kmeasure; cbn [kids pending caught];
-      destruct (pending k); cbn [b2n];
-      destruct (Nat.ltb_spec 0 (caught k)); try destruct (Nat.ltb_spec 0 (S (caught k))); cbn [b2n]; lia.
+    pose proof (raise_measure (set_kids k (upd (kids k) i (mkChild Zombie cd rp false)))).
+    pose proof (kmeasure_upd k i _ (mkChild Zombie cd rp false) Hn) as H1.
+    child_sums H1. destruct cg; cbn [b2n andb] in H1; lia.
   - (* local work *)
-    set (c' := mkChild (Running w) (code c) (reaps c)).
-    destruct (sums_upd k i c c' Hn) as [H1 [H2 H3]].
-    child_facts c Hc.
-    change (unreaped c') with true in H1.
-    change (is_running c') with true in H2.
-    change (workload c') with (S w) in H3.
-    rewrite E in H1. rewrite E0 in H2. rewrite E1 in H3. cbn [b2n] in *.
-    unfold kmeasure, set_kids; cbn [kids pending caught]. lia.
+    pose proof (kmeasure_upd k i _ (mkChild (Running r) cd rp cg) Hn) as H1.
+    child_sums H1. destruct cg; cbn [b2n andb] in H1; lia.
+  - (* a signal *)
+    pose proof (signal_measure (set_kids k (upd (kids k) i (mkChild (Running r) cd rp cg))) s t).
+    pose proof (kmeasure_upd k i _ (mkChild (Running r) cd rp cg) Hn) as H1.
+    child_sums H1. destruct cg; cbn [b2n andb] in H1; lia.
 Qed.
 
 Lemma kmeasure_block k : kmeasure (k_block k) = kmeasure k.
@@ -304,6 +383,10 @@ Qed.
 Lemma stage_rank_bound k m : stage_rank k m <= 6.
 Proof. destruct m; cbn; try lia. destruct (blocked k), (catching k); cbn; lia. Qed.
 
+(* the signal fields are what the ranks look at *)
+Lemma stage_rank_kids k l m : stage_rank (set_kids k l) m = stage_rank k m.
+Proof. reflexivity. Qed.
+
 Lemma parent_step_measure s s' :
   parent_step s = Some s' -> measure s' < measure s.
 Proof.
@@ -338,7 +421,7 @@ Proof.
         destruct c; cbn [stage_rank k_block k_catch blocked catching]; rewrite ?Eb, ?Ec; cbn [negb b2n];
         bool_cases; lia.
     + (* SPoll *)
-      destruct (kwait k t) as [[i x| |] k'] eqn:Ew.
+      destruct (kwait k t) as [[i x|i|i| |] k'] eqn:Ew.
       * destruct (kwait_some _ _ _ _ _ Ew) as [ch [Hn [Hz [Hx [Hk _]]]]].
         pose proof (kmeasure_reap k i ch Hn Hz) as Hr. rewrite <- Hk in Hr.
         destruct c as [more fin pf ra|t0].
@@ -347,6 +430,14 @@ Proof.
            ++ destruct ra; cbn [pc_rank]; lia.
            ++ pose proof (stage_rank_bound k' SInst) as Hb; cbn [stage_rank] in Hb. lia.
         -- intros H; apply Some_inj in H; subst s'. cbn [kn prog at_ pc_rank stage_rank]. lia.
+      * destruct (kwait_seen _ _ _ _ i Ew (or_introl eq_refl)) as [ch [Hn [Ha [Hg [Hk _]]]]].
+        pose proof (kmeasure_seen k i ch Hn Ha Hg) as Hr. rewrite <- Hk in Hr.
+        pose proof (stage_rank_bound k' SInst) as Hb; cbn [stage_rank] in Hb.
+        destruct c; intros H; apply Some_inj in H; subst s'; cbn [kn prog at_ set_at pc_rank stage_rank]; lia.
+      * destruct (kwait_seen _ _ _ _ i Ew (or_intror eq_refl)) as [ch [Hn [Ha [Hg [Hk _]]]]].
+        pose proof (kmeasure_seen k i ch Hn Ha Hg) as Hr. rewrite <- Hk in Hr.
+        pose proof (stage_rank_bound k' SInst) as Hb; cbn [stage_rank] in Hb.
+        destruct c; intros H; apply Some_inj in H; subst s'; cbn [kn prog at_ set_at pc_rank stage_rank]; lia.
       * intros H; apply Some_inj in H; subst s'. cbn [kn prog at_ set_at pc_rank].
         destruct c; cbn [stage_rank]; lia.
       * destruct c; intros H; apply Some_inj in H; subst s'; cbn [kn prog at_ set_at finish pc_rank stage_rank]; lia.
@@ -370,12 +461,34 @@ Proof.
         cbn [kn prog at_ set_at finish pc_rank]; try lia.
       pose proof (stage_rank_bound k SInst) as Hb; cbn [stage_rank] in *. lia.
   - (* PReap *)
-    destruct (kwait k TAny) as [[i x| |] k'] eqn:Ew; intros H; apply Some_inj in H; subst s';
+    destruct (kwait k TAny) as [[i x|i|i| |] k'] eqn:Ew; intros H; apply Some_inj in H; subst s';
       cbn [kn prog at_ set_at pc_rank]; try lia.
-    destruct (kwait_some _ _ _ _ _ Ew) as [ch [Hn [Hz [Hx [Hk _]]]]].
-    pose proof (kmeasure_reap k i ch Hn Hz) as Hr. rewrite <- Hk in Hr. lia.
+    + destruct (kwait_some _ _ _ _ _ Ew) as [ch [Hn [Hz [Hx [Hk _]]]]].
+      pose proof (kmeasure_reap k i ch Hn Hz) as Hr. rewrite <- Hk in Hr. lia.
+    + destruct (kwait_seen _ _ _ _ i Ew (or_introl eq_refl)) as [ch [Hn [Ha [Hg [Hk _]]]]].
+      pose proof (kmeasure_seen k i ch Hn Ha Hg) as Hr. rewrite <- Hk in Hr. lia.
+    + destruct (kwait_seen _ _ _ _ i Ew (or_intror eq_refl)) as [ch [Hn [Ha [Hg [Hk _]]]]].
+      pose proof (kmeasure_seen k i ch Hn Ha Hg) as Hr. rewrite <- Hk in Hr. lia.
   - discriminate.
   - discriminate.
+Qed.
+
+(* a child step leaves the signal mask and the disposition alone *)
+Lemma child_step_sigfields k i k' :
+  child_step k i = Some k' -> blocked k' = blocked k /\ catching k' = catching k.
+Proof.
+  assert (Hr : forall kk, blocked (raise_chld kk) = blocked kk /\ catching (raise_chld kk) = catching kk).
+  { intros kk. unfold raise_chld, deliver. destruct (blocked kk) eqn:Eb; cbn [blocked catching]; auto.
+    destruct (catching kk) eqn:Ec; cbn [blocked catching]; auto. }
+  assert (Hs : forall kk s t, blocked (k_signal kk s t) = blocked kk /\ catching (k_signal kk s t) = catching kk).
+  { intros kk s t. unfold k_signal. destruct (nth_error (kids kk) t) as [c|]; [|auto].
+    destruct s; destruct (cs c); auto;
+      match goal with |- context [raise_chld ?x] => destruct (Hr x) as [A B]; rewrite A, B end; auto. }
+  unfold child_step. destruct (nth_error (kids k) i) as [c|]; [|discriminate].
+  destruct (cs c) as [[|[|s t] r]| | |]; try discriminate; intros H; apply Some_inj in H; subst k'.
+  - match goal with |- context [raise_chld ?x] => destruct (Hr x) as [A B]; rewrite A, B end; auto.
+  - auto.
+  - match goal with |- context [k_signal ?x ?s ?t] => destruct (Hs x s t) as [A B]; rewrite A, B end; auto.
 Qed.
 
 Lemma step_measure s l s' : step s l = Some s' -> measure s' < measure s.
@@ -387,13 +500,7 @@ Proof.
     pose proof (child_step_measure _ _ _ E).
     unfold measure, set_at; cbn [kn prog at_].
     assert (pc_rank k' (at_ s) = pc_rank (kn s) (at_ s)).
-    { assert (Hsame : blocked k' = blocked (kn s) /\ catching k' = catching (kn s)).
-      { unfold child_step in E. destruct (nth_error (kids (kn s)) i) as [c|]; [|discriminate].
-        destruct (cs c) as [[|w]| |]; try discriminate; apply Some_inj in E; subst k';
-          unfold raise_chld, deliver, set_kids; cbn [blocked catching];
-          destruct (blocked (kn s)) eqn:Eb; cbn [blocked catching]; auto;
-          destruct (catching (kn s)) eqn:Ec; cbn [blocked catching]; auto. }
-      destruct Hsame as [Hb Hc].
+    { destruct (child_step_sigfields _ _ _ E) as [Hb Hc].
       destruct (at_ s) as [| | m t c0| | | |]; try reflexivity.
       destruct c0, m; cbn [pc_rank stage_rank]; rewrite ?Hb, ?Hc; reflexivity. }
     lia.
